@@ -984,11 +984,15 @@ fn direct_resolve(snap: &Arc<Snapshot>, tx: &TransactionView, ids: &Ids) -> Stri
 }
 
 fn hdep_block_class(text: &str, want: &Byte32, ids: &Ids) -> String {
-    assert!(text.contains("InvalidHeader"), "node: unexpected block error in a header-dep scenario: {text}");
+    // any other rejection is its own verdict class: the oracles (block-vs-direct, history-dependence,
+    // the expectation) and the model comparison decide, the harness does not crash on it
+    if !text.contains("InvalidHeader") {
+        return "other-error".to_string();
+    }
     let hex = format!("{want}");
     let hex = hex.trim_start_matches("Byte32(").trim_end_matches(')').trim_start_matches("0x").to_string();
-    if hex.len() == 64 {
-        assert!(text.contains(&hex), "node: InvalidHeader names another header: {text}");
+    if hex.len() == 64 && !text.contains(&hex) {
+        return "other-error".to_string();
     }
     format!("invalid-header {}", hdr_id(ids, want))
 }
